@@ -76,6 +76,16 @@ def gen(rnd):
     names = sorted(rnd.sample(FIELDS, rnd.randint(1, 3)))
     kind = rnd.choice(['ram', 'ram-all', 'disk', 'columns', 'filter', 'groupby', 'join'])
     flag = rnd.random() < 0.35
+    silent_only = None
+    if rnd.random() < 0.12:
+        # the impure value reaches the keyed / cached field through a Silent argument ONLY: its hash is ignored, its value still takes part
+        a, b = rnd.sample(FIELDS, 2)
+        spec = [src(ids),
+                {'t': 'transform', 'fields': {b: [fresh(), [b]]}, 'params': {}, 'inherit': True, 'impure': [b]},
+                {'t': 'transform', 'fields': {a: [fresh(), [a, '~' + b]]}, 'params': {}, 'inherit': [x for x in FIELDS + ['id', 'ids'] if x not in (a, b)]}]
+        where, silent_only = 'silent-only', a
+        kind = rnd.choice(['ram', 'disk', 'columns', 'filter', 'groupby', 'join'])
+        names = [a]
     if kind == 'ram':
         final = {'t': 'ram', 'names': names, 'size': None, 'impure': flag}
     elif kind == 'ram-all':
@@ -91,14 +101,14 @@ def gen(rnd):
         final = {'t': 'filter', 'pred': ['t000', names]}
         flag = False
     elif kind == 'join':
-        on = rnd.choice(FIELDS)
+        on = silent_only or rnd.choice(FIELDS)
         final = {'t': 'join', 'on': on}
         names = [on]            # Join hashes the graph of the key field on both sides
         flag = False
     else:
-        by = rnd.choice(FIELDS)
+        by = silent_only or rnd.choice(FIELDS)
         final = {'t': 'groupby', 'by': by}
-        names = FIELDS          # GroupBy hashes the graph of every field and of the key
+        names = FIELDS if silent_only is None else [x for x in FIELDS if x != b]         # GroupBy hashes the graph of every field and of the key
         flag = False
     return {'spec': spec, 'final': final, 'touched': names, 'kind': kind, 'flag': flag, 'where': where}
 
